@@ -27,7 +27,8 @@ def monitor(sc, views):
             lastid = v.cache.get("lastid", 0)
             for u, p in v.cusers.items():
                 if not (0 <= p["read"] <= p["recv"] <= lastid):
-                    res.append(("cached-marks-bounds", k, "user %d cached read=%d recv=%d lastid=%d" % (u, p["read"], p["recv"], lastid)))
+                    law = "cached-read-le-recv" if (0 <= p["read"] <= lastid and 0 <= p["recv"] <= lastid) else "cached-marks-bounds"
+                    res.append((law, k, "user %d cached read=%d recv=%d lastid=%d" % (u, p["read"], p["recv"], lastid)))
         for sid, t in v.frames:
             if t.startswith("desc "):
                 d = statelib.kvs(t)
@@ -68,8 +69,8 @@ def monitor(sc, views):
             amode = eff(prev.subs.get(actor, {}).get("want", ""), prev.subs.get(actor, {}).get("given", "")) if actor in prev.subs and not prev.subs[actor]["deleted"] else ""
             valid = (what in ("read", "recv") and 0 < seq <= prev.topic.get("seqid", 0) and "R" in amode) or \
                     (what == "kp" and seq == 0 and "W" in amode)
-            if what not in ("read", "recv", "kp") or (what in ("read", "recv") and seq <= 0) or (what == "kp" and seq != 0) \
-               or (what in ("read", "recv") and seq > prev.topic.get("seqid", 0)):
+            if origin in prev.csess and (what not in ("read", "recv", "kp") or (what in ("read", "recv") and seq <= 0) or (what == "kp" and seq != 0) \
+               or (what in ("read", "recv") and seq > prev.topic.get("seqid", 0))):
                 # invalid by value: no reply, no side effect
                 if v.frames or v.pres:
                     res.append(("invalid-note-silent", k, "invalid note %s seq=%d produced output %s" % (what, seq, v.frames + v.pres)))
